@@ -407,6 +407,97 @@ def list_items(I, ref):
     return None
 
 
+def merged_items(I, v, cond=TRUE):
+    """items of a list-valued term that may be a conditional over several list objects: every item's guard is
+    conjoined with the condition of its alternative.  None when some alternative is not a summarised list."""
+    if isinstance(v, Ite):
+        a = merged_items(I, v.a, and_(cond, v.c))
+        b = merged_items(I, v.b, and_(cond, not_(v.c)))
+        if a is None or b is None:
+            return None
+        return a + b
+    if isinstance(v, Const) and isinstance(v.v, (tuple, list)):
+        return [("v", Const(x), cond) for x in v.v]
+    its = list_items(I, v)
+    if its is None:
+        return None
+    out = []
+    for it in its:
+        if it[0] == "v":
+            out.append(("v", it[1], and_(cond, it[2])))
+        else:
+            out.append(("rep", it[1], it[2], and_(cond, it[3])))
+    return out
+
+
+def with_heap(I, env):
+    """environment in which references to summarised lists / dictionaries evaluate to their concrete contents"""
+    def hook(ref, e):
+        o = I.heap.get(ref.oid)
+        if isinstance(o, ListObj):
+            vals = eval_items(o.items, e)
+            return tuple(vals) if o.typ == "tuple" else vals
+        if isinstance(o, DictObj):
+            d = {}
+            for k, v, g, lc in o.entries:
+                if lc:
+                    raise CannotEval("dictionary filled in a loop")
+                if bool(evaluate(g, e)):
+                    d[evaluate(k, e)] = evaluate(v, e)
+            return d
+        raise CannotEval(repr(ref))
+    out = dict(env)
+    out["__ref__"] = hook
+    return out
+
+
+def eval_items(items, env, cap=4096):
+    """Concrete value of a summarised list: 'rep' items are expanded by running their loop's summary (condition / trip
+    count, per-iteration guard and element, stop conditions) for i = 0, 1, ...  Raises CannotEval when a summary has
+    no closed form in the loop index."""
+    out = []
+    k = 0
+    while k < len(items):
+        it = items[k]
+        if it[0] == "v":
+            if bool(evaluate(it[2], env)):
+                v = it[1]
+                if isinstance(v, Op) and v.op == "splat":
+                    out.extend(evaluate(v.args[0], env))
+                else:
+                    out.append(evaluate(v, env))
+            k += 1
+            continue
+        L = it[1]
+        group = []
+        while k < len(items) and items[k][0] == "rep" and items[k][1] is L:
+            group.append(items[k])
+            k += 1
+        if len(getattr(L, "ctx", ()) or ()) > 0 and False:
+            raise CannotEval("nested loop")
+        trip = None
+        if L.kind != "while":
+            trip = evaluate(L.trip, env)
+        i = 0
+        while True:
+            if i > cap:
+                raise CannotEval("loop %d does not end within %d iterations" % (L.lid, cap))
+            e2 = dict(env)
+            e2[L.idx] = i
+            if trip is not None:
+                if i >= trip:
+                    break
+            elif not bool(evaluate(L.cond, e2)):
+                break
+            for g in group:
+                if bool(evaluate(g[3], e2)):
+                    out.append(evaluate(g[2], e2))
+            if any(bool(evaluate(sc, e2)) for sc in L.stops):
+                break
+            i += 1
+    return out
+
+
 def dict_entries(I, ref):
     o = I.heap.get(ref.oid) if isinstance(ref, Ref) else None
     if isinstance(o, DictObj):
